@@ -422,7 +422,7 @@ htp_status_t htp_connp_RES_BODY_CHUNKED_LENGTH(htp_connp_t *connp) {
             }
             // empty chunk length line, lets try to continue
             if (connp->out_chunked_length == -1004) {
-                connp->out_current_consume_offset = connp->out_current_read_offset;
+                htp_connp_res_clear_buffer(connp);
                 continue;
             }
             if (connp->out_chunked_length < 0) {
